@@ -57,6 +57,16 @@ import weakref
 
 import priv
 
+# The stepped loop runs Python tasks (asyncio.tasks._PyTask, see above).  The PUBLIC names asyncio.Future / asyncio.Task
+# normally denote the C classes of the _asyncio accelerator, of which a _PyTask is NOT an instance: library code that
+# asks `isinstance(x, asyncio.Future)` (pygls/client.py does) would then not recognise the harness's tasks.  So the
+# whole process runs in the configuration of an interpreter without the accelerator: the public names denote the
+# Python classes, and loop.create_future() / wrap_future() build them too.
+asyncio.futures.Future = asyncio.futures._PyFuture
+asyncio.Future = asyncio.futures._PyFuture
+asyncio.tasks.Task = asyncio.tasks._PyTask
+asyncio.Task = asyncio.tasks._PyTask
+
 logging.disable(logging.CRITICAL)
 warnings.simplefilter("ignore")
 
